@@ -30,6 +30,20 @@ def gen_sighash(api):
     out.append('Definition fmt_RawSignatureHash : list fmt := [%s].' % '; '.join(extract_C01.formats(raw)))
     ints = sorted(set(api.int_literals(raw)))
     out.append('Definition lits_RawSignatureHash : list Z := %s.' % api.zlist(ints))
+    # the filler outputs of SIGHASH_SINGLE are `bitcoin.core.CTxOut()`: the constructor defaults, by introspection
+    import bitcoin.core as C
+    calls = [n for n in ast.walk(raw) if isinstance(n, ast.Call) and isinstance(n.func, ast.Attribute)
+             and n.func.attr == 'CTxOut']
+    if len(calls) != 1 or calls[0].args or calls[0].keywords:
+        # a filler built with explicit arguments is not the default object: record the literal arguments instead
+        if len(calls) == 1 and all(isinstance(a, ast.Constant) for a in calls[0].args) and not calls[0].keywords:
+            filler = C.CTxOut(*[a.value for a in calls[0].args])
+        else:
+            raise LookupError('RawSignatureHash: unexpected CTxOut(...) filler')
+    else:
+        filler = C.CTxOut()
+    out.append('Definition SINGLE_filler_nValue : Z := %s.' % api.zlit(filler.nValue))
+    out.append('Definition SINGLE_filler_script : bytes := %s.' % api.byteslit(bytes(filler.scriptPubKey)))
     sh = api.find_func(tree, 'SignatureHash')
     fm, lits = branch_formats(sh, True)
     out.append('Definition fmt_bip143 : list fmt := [%s].' % '; '.join(fm))
